@@ -170,11 +170,17 @@ def r3(R3, cfg, F):
         return
     ii = [c for c in cl.calls() if c.callee and c.callee.best == 'std::mem::ManuallyDrop::<T>::into_inner']
     rp = [c for c in cl.calls() if c.callee and c.callee.best == 'std::mem::replace']
-    ok = len(ii) == 1 and len(rp) == 1
-    why = 'shape (one mem::replace of the state, one ManuallyDrop::into_inner of the old seed)'
+    sw = [c for c in cl.calls() if c.callee and c.callee.best == 'std::mem::swap']
+    ok = len(ii) == 1 and len(rp) + len(sw) == 1
+    why = 'shape (one mem::replace / mem::swap of the state, one ManuallyDrop::into_inner of the old seed)'
     if ok:
         ap = cl.access_path(ii[0].args[0])
-        ok = ap == ['call@bb%d' % rp[0].bb, 'uninit']
+        if rp:
+            ok = ap == ['call@bb%d' % rp[0].bb, 'uninit']
+        else:
+            # mem::swap(state, &mut other); other.uninit  -- after the swap `other` holds what the cell held
+            other = common.strip_refs(cl.access_path(sw[0].args[1]) or [])
+            ok = bool(other) and ap == other + ['uninit'] and cl.dominates(sw[0].bb, ii[0].bb) and sw[0].bb != ii[0].bb
         why = 'the value taken out must be the `uninit` arm of the replaced state'
     if ok:
         # forward slice of the seed: exactly one sink, a store into the captured slot (upvar 2), never a drop operand
